@@ -338,9 +338,44 @@ theorem bigint_overflows_sqlite (c : Cls) (hc : isSql c = true) (isId : Bool) (i
 
 /-! #### The per-format encoding (what an independent decoder reads back) -/
 
-theorem cell_str (c : Cls) (hc : c ≠ .base) (isId : Bool) (s : String) :
+/- FULL STATEMENT (false on the pinned commit, finding D56):
+   theorem cell_str (c : Cls) (hc : c ≠ .base) (isId : Bool) (s : String) :
+     encodeCell c isId (.str s) = .ok (.text s)
+   The SQL script is produced by `iterdump()` (sqlite's `quote()`), which cuts a text value at its
+   first NUL character. -/
+
+/-- **D56 witness**: the string `"a\0b"` reads back as `"a"` from the SQL script. -/
+theorem cell_str_refuted :
+    encodeCell .sqlText false (.str (String.ofList ['a', Char.ofNat 0, 'b'])) = .ok (.text "a") := by
+  decide
+
+/-- strings without a NUL character are untouched by the dump -/
+theorem truncNul_of_no_nul (s : String) (h : Char.ofNat 0 ∉ s.toList) : truncNul s = s := by
+  unfold truncNul
+  have key : ∀ l : List Char, Char.ofNat 0 ∉ l → l.takeWhile (fun c => c != Char.ofNat 0) = l := by
+    intro l
+    induction l with
+    | nil => intro _; rfl
+    | cons a l ih =>
+      intro hl
+      have ha : (a != Char.ofNat 0) = true := by
+        simp only [bne_iff_ne, ne_eq]
+        intro e
+        exact hl (e ▸ List.mem_cons_self)
+      rw [List.takeWhile_cons, ha]
+      simp only [if_true]
+      rw [ih (fun hm => hl (List.mem_cons_of_mem _ hm))]
+  rw [key _ h, String.ofList_toList]
+
+/-- **`cell_str_partial`**: every class carries a string verbatim — in every format but the SQL script
+    for every string (control characters, separators, quotes, any length), in the SQL script for
+    every string without a NUL character. -/
+theorem cell_str_partial (c : Cls) (hc : c ≠ .base) (isId : Bool) (s : String)
+    (h : c = .sqlText → Char.ofNat 0 ∉ s.toList) :
     encodeCell c isId (.str s) = .ok (.text s) := by
-  cases c <;> first | exact absurd rfl hc | rfl
+  cases c <;> first | exact absurd rfl hc | rfl | skip
+  show Except.ok (Cell.text (truncNul s)) = _
+  rw [truncNul_of_no_nul s (h rfl)]
 
 theorem cell_bool (c : Cls) (hc : c ≠ .base) (b : Bool) :
     encodeCell c false (.bool b) =
@@ -361,7 +396,7 @@ theorem cell_none (c : Cls) (hc : c ≠ .base) :
 theorem none_vs_empty (c : Cls) (hc : c ≠ .base) :
     (encodeCell c false .none = encodeCell c false (.str "")) ↔ c = .csv := by
   cases c <;> first | exact absurd rfl hc | skip
-  all_goals simp [cell_none, cell_str]
+  all_goals simp [cell_none, cell_str_partial]
 
 theorem cell_date (c : Cls) (hc : c ≠ .base) (iso : String) :
     encodeCell c false (.date iso) = .ok (.text iso) := by
@@ -377,9 +412,13 @@ theorem cell_datetime (c : Cls) (hc : c ≠ .base) (tsec sp : String) :
                   | _ => tsec)) := by
   cases c <;> first | exact absurd rfl hc | rfl
 
-theorem cell_decimal (c : Cls) (hc : c ≠ .base) (s : String) :
+/-- (`s` = `str(decimal)`, which never contains a NUL character; the hypothesis is needed only
+    because the SQL script renders the encoded string through `quote()`, see `cell_str_refuted`) -/
+theorem cell_decimal (c : Cls) (hc : c ≠ .base) (s : String) (h : Char.ofNat 0 ∉ s.toList) :
     encodeCell c false (.decimal s) = .ok (.text s) := by
-  cases c <;> first | exact absurd rfl hc | rfl
+  cases c <;> first | exact absurd rfl hc | rfl | skip
+  show Except.ok (Cell.text (truncNul s)) = _
+  rw [truncNul_of_no_nul s h]
 
 /-- references are written as the id of the target row (the debug text shows `Table(id)`) -/
 theorem cell_ref (c : Cls) (hc : c ≠ .base) (t : String) (i : Int) (hi : int64 i = true) :
